@@ -61,22 +61,29 @@ type mfield struct {
 	classA         bool // generic alias + source-specific primary, no source-specific alias
 	aliasFromSrc   bool // aliased only through the source-specific alias tag
 	untaggedPrimay bool
+	embed          bool // embedded (anonymous) struct field of a registered type
+	pembed         bool // ... embedded by pointer
+	inEmbedded     bool // lives inside an embedded struct
 }
 
 type model struct {
 	src    srcKind
 	fields []*mfield
 	all    []*mfield
+	// upperKeys: a tag-reformatting mangler (ez with FileFieldNameEncoder =
+	// UPPER_SNAKE_CASE) gives an untagged embedded field a key derived from
+	// its type name, so it is no longer promoted.
+	upperKeys bool
 }
 
 func buildModel(s shape.Shape, src srcKind) (*model, error) {
 	m := &model{src: src}
-	var rec func(fs []shape.Field, prefix string, depth int, under bool) ([]*mfield, error)
-	rec = func(fs []shape.Field, prefix string, depth int, under bool) ([]*mfield, error) {
+	var rec func(fs []shape.Field, prefix string, depth int, under, inEmb bool) ([]*mfield, error)
+	rec = func(fs []shape.Field, prefix string, depth int, under, inEmb bool) ([]*mfield, error) {
 		var out []*mfield
 		for i := range fs {
 			f := &fs[i]
-			mf := &mfield{name: f.Name, words: f.Words, depth: depth, underAliased: under}
+			mf := &mfield{name: f.Name, words: f.Words, depth: depth, underAliased: under, inEmbedded: inEmb}
 			mf.path = f.Name
 			if prefix != "" {
 				mf.path = prefix + "." + f.Name
@@ -85,6 +92,11 @@ func buildModel(s shape.Shape, src srcKind) (*model, error) {
 			case "leaf":
 				mf.leaf, mf.typ = true, f.Type
 			case "struct", "pstruct":
+			case "embed", "pembed":
+				mf.embed, mf.pembed = true, f.Kind == "pembed"
+				if f.Name != f.Type {
+					return nil, fmt.Errorf("embedded field %s must be named after its type %s", f.Name, f.Type)
+				}
 			default:
 				return nil, fmt.Errorf("field kind %q is outside this check's grammar", f.Kind)
 			}
@@ -98,7 +110,7 @@ func buildModel(s shape.Shape, src srcKind) (*model, error) {
 			if (mf.dialsOK && mf.dials == "") || (mf.aliasOK && mf.alias == "") || (mf.spOK && mf.sp == "") || (mf.saOK && mf.sa == "") {
 				return nil, fmt.Errorf("empty tag value on %s", mf.path)
 			}
-			if !mf.dialsOK && len(mf.words) == 0 {
+			if !mf.dialsOK && len(mf.words) == 0 && !mf.embed {
 				return nil, fmt.Errorf("untagged field %s without words", mf.path)
 			}
 			if src.flatten {
@@ -110,7 +122,15 @@ func buildModel(s shape.Shape, src srcKind) (*model, error) {
 			}
 			mf.untaggedPrimay = !mf.dialsOK && !mf.spOK
 			if !mf.leaf {
-				kids, err := rec(f.Fields, mf.path, depth+1, under || mf.aliasOK)
+				kidFields := f.Fields
+				if mf.embed {
+					ks, ok := embedKids(f.Type)
+					if !ok {
+						return nil, fmt.Errorf("unknown embeddable type %q", f.Type)
+					}
+					kidFields = ks
+				}
+				kids, err := rec(kidFields, mf.path, depth+1, under || mf.aliasOK, inEmb || mf.embed)
 				if err != nil {
 					return nil, err
 				}
@@ -121,7 +141,7 @@ func buildModel(s shape.Shape, src srcKind) (*model, error) {
 		}
 		return out, nil
 	}
-	fs, err := rec(s.Fields, "", 0, false)
+	fs, err := rec(s.Fields, "", 0, false, false)
 	if err != nil {
 		return nil, err
 	}
@@ -178,6 +198,19 @@ func (m *model) edges(f *mfield) []edge {
 	prim.seg = f.name
 	if f.dialsOK {
 		prim.words, prim.raw, prim.docKey = splitTagWords(f.dials), f.dials, f.dials
+	} else if f.embed {
+		// An untagged embedded struct: the flatten sources and encoding/json
+		// (hence Cue) promote its fields, i.e. it contributes no name
+		// element; yaml.v2 (no ",inline") and go-toml treat it as a field
+		// named after its type.  All four verified on the unmodified tree.
+		switch {
+		case m.upperKeys:
+			prim.docKey = strings.ToUpper(strings.Join(embedTypeWords[f.name], "_"))
+		case m.src.name == "yaml":
+			prim.docKey = strings.ToLower(f.name)
+		case m.src.name == "toml":
+			prim.docKey = f.name
+		}
 	} else {
 		prim.words, prim.raw = f.words, strings.Join(f.words, "-")
 		switch m.src.name {
@@ -219,8 +252,14 @@ func (m *model) expand() []xleaf {
 					k = key + "." + e.seg
 				}
 				w := append(append([]string{}, words...), e.words...)
-				r := append(append([]string{}, raws...), e.raw)
-				d := append(append([]string{}, doc...), e.docKey)
+				r := append([]string{}, raws...)
+				if e.raw != "" {
+					r = append(r, e.raw)
+				}
+				d := append([]string{}, doc...)
+				if e.docKey != "" {
+					d = append(d, e.docKey)
+				}
 				if !f.leaf {
 					rec(f.kids, k, w, r, d)
 					continue
@@ -256,6 +295,40 @@ type patInst struct {
 	depth int
 	// expanded-leaf keys of the two names (leaf fields only)
 	pk, ak string
+}
+
+// embedLabels classifies the embedded structs of the type and the aliased
+// field instances that live inside one.
+func embedLabels(m *model, pats []patInst, lab map[string]bool) {
+	for _, f := range m.all {
+		if !f.embed {
+			continue
+		}
+		where := "root"
+		if f.depth > 0 {
+			where = "nested"
+		}
+		how := "value"
+		if f.pembed {
+			how = "pointer"
+		}
+		lab["embedded:"+where] = true
+		lab["embedded:by-"+how] = true
+		if f.dialsOK {
+			lab["embedded-field:dials-tag"] = true
+		}
+		if f.aliasOK {
+			lab["embedded-field:aliased"] = true
+		}
+		if f.underAliased {
+			lab["embedded:under-aliased-struct"] = true
+		}
+	}
+	for _, p := range pats {
+		if p.f.inEmbedded {
+			lab["aliased-in-embedded:"+p.pat] = true
+		}
+	}
 }
 
 // emptyLabels classifies aliased collection leaves that were supplied with an
